@@ -17,6 +17,7 @@ from ..catalogue import builder_methods, defining_class, is_builder_method, scen
 from ..fingerprint import F, S_parts, fdiff
 from ..gen import Forest
 from ..prog import DIALECT_CLASSES, Failed, Interp, phash, run, show, slice_program, step_refs
+from ..siblings import pair_program, pair_specs
 
 PROP = "C01"
 LEVEL = "exploration"
@@ -46,6 +47,18 @@ def cases(tier, seed, shard, nshards):
         for d in DIALECT_CLASSES:
             for c in exemption_cases(d):
                 yield c
+    # sibling-interference matrix: every ordered pair of continuations of one primed receiver, shared vocabulary
+    k = 0
+    for di, d in enumerate(DIALECT_CLASSES):
+        for j, spec in enumerate(pair_specs(d)):
+            if tier == "quick" and (j + seed) % 6 != di:
+                continue  # quick: each pair under one dialect class (rotating with the seed); thorough: under all six
+            k += 1
+            if k % nshards == shard:
+                yield {"k": "pair", "d": d, "spec": spec, "chain": False}
+                if (tier != "quick" or k % 7 == 0) and spec[2] not in ("render", "str", "hash"):
+                    # (A's result is the receiver of B here, so A must return a builder: str.join(Table) would iterate forever)
+                    yield {"k": "pair", "d": d, "spec": spec, "chain": True}
     n = (2400 if tier == "quick" else 160000) // nshards
     rnd = random.Random("C01:%d:%d" % (seed, shard))
     for i in range(n):
@@ -280,9 +293,28 @@ def run_exempt(case, mon):
     mon.nontrivial(phash(prog))
 
 
+def run_pair(case, mon):
+    prog, want = pair_program(case["d"], *case["spec"], chain=case["chain"])
+    case["prog"] = prog
+    env = run(prog, case["d"])
+    mon.count("pair_programs")
+    if any(isinstance(env[i], Failed) for i in want[:2]):
+        mon.count("pair_programs_prime_or_A_not_applicable")
+        return
+    fs = check_history(prog, mon, want=set(want), prefix="siblings:")
+    if fs is None:
+        return
+    mon.add("pair_actions", "%s/%s" % (case["spec"][0], case["spec"][2]))
+    if not isinstance(env[want[2]], Failed):
+        mon.count("pair_programs_both_continuations_built")
+        mon.nontrivial(phash(prog))
+
+
 def run_case(case, mon):
     if case["k"] == "exempt":
         return run_exempt(case, mon)
+    if case["k"] == "pair":
+        return run_pair(case, mon)
     prog = case["prog"]
     fs = check_history(prog, mon)
     if fs is None:
@@ -340,7 +372,8 @@ def coverage_extra(m, tier):
 
 
 def FLOORS(tier):
-    return {"rebuild_comparisons": 5000, "branching_observations": 1000, "twin_comparisons": 1000, "exemption_checks": 6}
+    return {"rebuild_comparisons": 5000, "branching_observations": 1000, "twin_comparisons": 1000, "exemption_checks": 6,
+            "pair_programs_both_continuations_built": 5000}
 
 
 def describe(case):
